@@ -6,6 +6,7 @@
 import EinoV.Model.C20Builder
 import EinoV.Model.C07
 import EinoV.Proofs.C07
+import EinoV.Proofs.C20Ends
 import EinoV.Gen.FactsC07
 import EinoV.Expected.C07
 
@@ -74,6 +75,18 @@ theorem compiled_concrete_edges_equal (im : Impl) (ord : Ord) (hv : ord.Valid)
   by_cases h : a = b
   · exact h
   · simp [h] at hs
+
+/-- **inference_order_free.**  Which calls are accepted – hence which graphs compile at all –
+    does not depend on Go's map iteration orders (work list, branch end nodes, Kahn's
+    counters): two runs of the same Graph-API call sequence under any two orders agree on the
+    outcome class of every call.  (Proved once for C20 and C07: Proofs/C20Order, C20Ends.) -/
+theorem inference_order_free (im : Impl) (ord ord' : Ord) (hv : ord.Valid) (hv' : ord'.Valid)
+    (cmp : Cmp) (inT outT : Ty) (st : Option Nat) (ops : List Op)
+    (hops : ∀ op ∈ ops, op.isGraphApi = true) :
+    (run srcFacts im ord (Builder.new cmp inT outT st) ops).2.1.map Outcome.cls =
+    (run srcFacts im ord' (Builder.new cmp inT outT st) ops).2.1.map Outcome.cls :=
+  run_order_free srcFacts ⟨rfl, rfl, rfl⟩ (by decide) (by decide) (by decide) im ord ord' hv hv' ops _ _ hops
+    (Or.inl ⟨Sim.refl _ rfl, Inv_new im cmp inT outT st, Inv_new im cmp inT outT st, KeysOK_new cmp inT outT st⟩)
 
 /-- **run_no_type_panic.** No run of such a runnable – whatever the node bodies return
     (within their declared output types), whatever the branch conditions choose, whatever the
